@@ -234,4 +234,49 @@ RangeText(ts) ==
 TokEq(a, b) == /\ Dl(a) = Dl(b) /\ Dc(a) = Dc(b) /\ Src(a) = Src(b) /\ Nm(a) = Nm(b) /\ Rg(a) = Rg(b)
                /\ (Src(a) # -1 => Sl(a) = Sl(b) /\ Sc(a) = Sc(b))
 ToksEq(as, bs) == Len(as) = Len(bs) /\ \A i \in DOMAIN as : TokEq(as[i], bs[i])
+
+(* ============== the decoder with exact (bit-list) arithmetic ============== *)
+\* Same machine, positions kept as values so that 32-bit positions and deltas of +-(2^32-1)
+\* are evaluated exactly.  A token is <<dl, dcV, src, slV, scV, nm>> (dl, src, nm small integers).
+VInit == [line |-> 0, dc |-> Zero, src |-> 0, sl |-> Zero, sc |-> Zero, nm |-> 0,
+          seg |-> DecInit, out |-> <<>>, err |-> "", free |-> FALSE]
+VClose(s, nsrc, nnm) ==
+    IF s.err # "" THEN s
+    ELSE IF s.seg.err # "" THEN [s EXCEPT !.err = s.seg.err]
+    ELSE IF s.seg.nd > 0 THEN [s EXCEPT !.err = "leftover"]
+    ELSE IF s.seg.out = <<>> THEN s
+    ELSE LET f == s.seg.out  n == Len(s.seg.out) IN
+         IF n \notin {1, 4, 5} THEN [s EXCEPT !.err = "arity"]
+         ELSE IF n >= 4 /\ Huge(f[2]) THEN [s EXCEPT !.err = "source"]
+         ELSE IF n = 5 /\ Huge(f[5]) THEN [s EXCEPT !.err = "name"]
+         ELSE
+         LET dc2  == AddV(s.dc, f[1])
+             src2 == IF n >= 4 THEN s.src + ToInt(f[2]) ELSE s.src
+             sl2  == IF n >= 4 THEN AddV(s.sl, f[3]) ELSE s.sl
+             sc2  == IF n >= 4 THEN AddV(s.sc, f[4]) ELSE s.sc
+             nm2  == IF n = 5 THEN s.nm + ToInt(f[5]) ELSE s.nm
+         IN
+         IF n >= 4 /\ (src2 < 0 \/ src2 >= nsrc) THEN [s EXCEPT !.err = "source"]
+         ELSE IF n = 5 /\ (nm2 < 0 \/ nm2 >= nnm) THEN [s EXCEPT !.err = "name"]
+         ELSE [s EXCEPT !.dc = dc2, !.src = src2, !.sl = sl2, !.sc = sc2, !.nm = nm2,
+                        !.free = s.free \/ ~InU32(dc2) \/ ~InU32(sl2) \/ ~InU32(sc2),   \* outside u32: the format says nothing
+                        !.out = Append(s.out, <<s.line, dc2, IF n >= 4 THEN src2 ELSE -1, sl2, sc2, IF n = 5 THEN nm2 ELSE -1>>)]
+VStep(s, sym, nsrc, nnm) ==
+    IF s.err # "" THEN s
+    ELSE IF sym \in 0..63 THEN [s EXCEPT !.seg = DecStep(s.seg, sym)]
+    ELSE IF sym = COMMA THEN LET c == VClose(s, nsrc, nnm) IN IF c.err # "" THEN c ELSE [c EXCEPT !.seg = DecInit]
+    ELSE IF sym = SEMI THEN LET c == VClose(s, nsrc, nnm) IN
+         IF c.err # "" THEN c ELSE [c EXCEPT !.seg = DecInit, !.line = s.line + 1, !.dc = Zero]
+    ELSE [s EXCEPT !.err = "foreign"]
+DecodeV(text, nsrc, nnm) ==
+    LET c == VClose(FoldLeft(LAMBDA s, sym : VStep(s, sym, nsrc, nnm), VInit, text), nsrc, nnm) IN
+    IF c.err # "" THEN [k |-> "err", toks |-> <<>>]
+    ELSE IF c.free THEN [k |-> "free", toks |-> <<>>]
+    ELSE [k |-> "ok", toks |-> c.out]
+\* observable equality of V-tokens: original position only for tokens with a source
+VTokEq(a, b) == /\ a[1] = b[1] /\ a[2] = b[2] /\ a[3] = b[3] /\ a[6] = b[6]
+                /\ (a[3] # -1 => a[4] = b[4] /\ a[5] = b[5])
+VToksEq(as, bs) == Len(as) = Len(bs) /\ \A i \in DOMAIN as : VTokEq(as[i], bs[i])
+\* the small-integer machine and the exact machine agree wherever the former is defined
+VOfTok(t) == <<Dl(t), FromInt(Dc(t)), Src(t), FromInt(Sl(t)), FromInt(Sc(t)), Nm(t)>>
 =============================================================================
